@@ -453,16 +453,53 @@ Proof.
 Qed.
 
 (* ================================================================== inline content *)
-Theorem inline_same_as_file : forall disk a a' path content,
-  content <> [] -> path <> [] -> disk path = Some content ->
+Lemma inline_branch_reviewed : inline_branch = reviewed_inline_branch.
+Proof. reflexivity. Qed.
+
+(* the two str.replace passes of main() compute the universal-newline translation of open() *)
+Lemma translate_inline_universal_len : forall n x, (List.length x <= n)%nat -> translate_inline x = universal_newlines x.
+Proof.
+  unfold translate_inline.
+  induction n as [|n IH]; intros x H.
+  - destruct x; [reflexivity|cbn in H; lia].
+  - destruct x as [|c r]; [reflexivity|]. cbn [List.length] in H.
+    destruct r as [|c2 r'].
+    + cbn. destruct (N.eqb c 13); reflexivity.
+    + cbn [py_replace_crlf universal_newlines]. cbn [List.length] in H.
+      destruct (N.eqb c 13) eqn:E1; cbn [andb].
+      * destruct (N.eqb c2 10) eqn:E2.
+        -- cbn [py_replace_cr map]. change (N.eqb 10 13) with false. cbn iota. f_equal.
+           apply (IH r'). lia.
+        -- cbn [py_replace_cr map]. rewrite E1. f_equal. apply (IH (c2 :: r')). cbn [List.length]. lia.
+      * cbn [py_replace_cr map]. rewrite E1. f_equal. apply (IH (c2 :: r')). cbn [List.length]. lia.
+Qed.
+
+Theorem translate_inline_universal : forall x, translate_inline x = universal_newlines x.
+Proof. intros x. apply (translate_inline_universal_len (List.length x)). lia. Qed.
+
+Lemma universal_newlines_id : forall x, chr_in 13 x = false -> universal_newlines x = x.
+Proof.
+  induction x as [|c r IH]; intros H; [reflexivity|].
+  unfold chr_in in H. cbn [existsb] in H. apply orb_false_iff in H as [H1 H2].
+  cbn [universal_newlines]. rewrite N.eqb_sym, H1. f_equal. apply IH. exact H2.
+Qed.
+
+(* --cfile/--hfile + --filename: the analysis gets the same File (path, basename, source) and the same context options
+   as for a file of that name holding those bytes - for ALL non-empty contents, carriage returns included.
+   `raw` gives the bytes on disk (as code points: UTF-8 decoding is modelled as the identity); the content must be
+   non-empty because main() tests its truthiness (an empty --cfile is ignored, see C16_example_inline). *)
+Theorem inline_same_as_file_raw : forall raw a a' path content,
+  content <> [] -> path <> [] -> raw path = Some content ->
   (a_cfile a = Some content /\ a_filename a = Some path \/
    truthy (a_cfile a) = false /\ a_hfile a = Some content /\ a_filename a = Some path) ->
   truthy (a_cfile a') = false -> truthy (a_hfile a') = false -> a_file a' = [path] ->
   a_debug a = a_debug a' -> a_R a = a_R a' ->
-  map (input_of disk) (files_of_args a) = map (input_of disk) (files_of_args a') /\ ctx_of_args a = ctx_of_args a'.
+  map (input_of (disk_of_raw raw)) (files_of_args a) = map (input_of (disk_of_raw raw)) (files_of_args a')
+  /\ ctx_of_args a = ctx_of_args a'.
 Proof.
-  intros disk a a' path content Hc Hp Hd Ha Hc' Hh' Hf' Hdb HR. split.
-  - unfold files_of_args. rewrite Hc', Hh', Hf'. cbn [orb map]. unfold input_of at 2. cbn [mf_path mf_source]. rewrite Hd.
+  intros raw a a' path content Hc Hp Hr Ha Hc' Hh' Hf' Hdb HR. split.
+  - unfold files_of_args. rewrite Hc', Hh', Hf'. cbn [orb map]. unfold input_of at 2. cbn [mf_path mf_source].
+    unfold disk_of_raw at 2. rewrite Hr. rewrite <- translate_inline_universal.
     destruct content as [|c0 cr]; [contradiction|]. destruct path as [|p0 pr]; [contradiction|].
     destruct Ha as [[E1 E2]|[E0 [E1 E2]]].
     + rewrite E1, E2. reflexivity.
@@ -477,35 +514,3 @@ Lemma inline_default_names : forall c,
   map mf_path (files_of_args (args_of [FlHfile c])) = [s "file.h"] /\
   map mf_path (files_of_args (args_of [FlHfile c; FlCfile c])) = [s "file.c"].
 Proof. intros [|c0 cr] H; [contradiction|]. repeat split. Qed.
-
-(* files are read with universal-newline translation, inline content is not: equal only without carriage returns *)
-Lemma universal_newlines_id : forall x, chr_in 13 x = false -> universal_newlines x = x.
-Proof.
-  induction x as [|c r IH]; intros H; [reflexivity|].
-  unfold chr_in in H. cbn [existsb] in H. apply orb_false_iff in H as [H1 H2].
-  cbn [universal_newlines]. rewrite N.eqb_sym, H1. f_equal. apply IH. exact H2.
-Qed.
-
-Theorem inline_same_as_file_raw_partial : forall raw a a' path content,
-  content <> [] -> path <> [] -> raw path = Some content -> chr_in 13 content = false ->
-  (a_cfile a = Some content /\ a_filename a = Some path \/
-   truthy (a_cfile a) = false /\ a_hfile a = Some content /\ a_filename a = Some path) ->
-  truthy (a_cfile a') = false -> truthy (a_hfile a') = false -> a_file a' = [path] ->
-  a_debug a = a_debug a' -> a_R a = a_R a' ->
-  map (input_of (disk_of_raw raw)) (files_of_args a) = map (input_of (disk_of_raw raw)) (files_of_args a')
-  /\ ctx_of_args a = ctx_of_args a'.
-Proof.
-  intros raw a a' path content Hc Hp Hr Hcr. apply inline_same_as_file; try assumption.
-  unfold disk_of_raw. rewrite Hr, (universal_newlines_id _ Hcr). reflexivity.
-Qed.
-
-Lemma inline_newlines_differ :
-  exists raw a a' path content, content <> [] /\ raw path = Some content /\
-    a_cfile a = Some content /\ a_filename a = Some path /\ a_cfile a' = None /\ a_hfile a' = None /\ a_file a' = [path] /\
-    map (input_of (disk_of_raw raw)) (files_of_args a) <> map (input_of (disk_of_raw raw)) (files_of_args a').
-Proof.
-  exists (fun _ => Some (s "int a;" ++ [13; 10]%N)),
-         (mkargs false FHuman false 0 None (Some (s "int a;" ++ [13; 10]%N)) None (Some (s "a.c")) []),
-         (mkargs false FHuman false 0 None None None None [s "a.c"]), (s "a.c"), (s "int a;" ++ [13; 10]%N).
-  repeat split; try reflexivity; vm_compute; discriminate.
-Qed.
